@@ -142,8 +142,15 @@ func genSeqOps(r *rand.Rand, nKeys, n int, mutate bool) []BEOp {
 			ops = append(ops, BEOp{Kind: "deleteAll"})
 		case x < 75:
 			ops = append(ops, BEOp{Kind: "len"})
-		case x < 81:
+		case x < 79:
 			ops = append(ops, BEOp{Kind: "walk"})
+		case x < 81:
+			// Walk with a failing callback / Dump into a failing writer (then the sequence goes on)
+			if chance(r, 0.5) {
+				ops = append(ops, BEOp{Kind: "walkErr", SleepNs: int64(r.IntN(3))})
+			} else {
+				ops = append(ops, BEOp{Kind: "dumpErr", SleepNs: int64(r.IntN(200))})
+			}
 		case x < 86:
 			ops = append(ops, BEOp{Kind: "load", Key: k})
 		case x < 91:
